@@ -51,8 +51,11 @@ def gen_case(seed, idx):
     rng = seeds.stream(seed, PROP, idx, "world")
     w = W.gen_modgraph(rng, {"max_mods": 3, "min_mods": 1, "max_ents": 3, "unknown_uses": True,
                              "extras": rng.random() < 0.3})
-    refusal = rng.random() < 0.18
-    place = rng.choice(REFUSALS) if refusal else rng.choice(PLACEMENTS)
+    # stratified, not drawn: every placement occurs in every batch of 48 consecutive worlds
+    rng.random()
+    rng.random()
+    refusal = idx % 6 == 5
+    place = REFUSALS[(idx // 6) % len(REFUSALS)] if refusal else PLACEMENTS[(idx - idx // 6) % len(PLACEMENTS)]
     opts = {"project": "C19 world %d" % idx, "preprocess": False, "parallel": 0,
             "search": rng.random() < 0.6, "graph": rng.random() < 0.5, "incl_src": rng.random() < 0.7,
             "externalize": rng.random() < 0.5, "warn": rng.random() < 0.2}
@@ -610,7 +613,7 @@ def main():
                         rep.violation(sig, what + " [regression corpus %s]" % fn,
                                       {"case": case["case"], "plans": case["plans"], "seed_used": case["seed_used"]})
         rep.cov["fixed_regressions_passed"] = n_corpus
-        n_worlds = args.worlds or (44 if args.tier == "quick" else 700)
+        n_worlds = args.worlds or (48 if args.tier == "quick" else 720)
         budget = args.budget or (70 if args.tier == "quick" else 1500)
         tasks = [(args.seed, i, args.tier, batch, False) for i in range(n_worlds)]
         if args.tier == "thorough":
